@@ -580,7 +580,9 @@ def extract_model(m, leaves):
         if isinstance(leaf, list):
             return [conv(x, depth + 1, tree) for x in leaf]
         if isinstance(leaf, dict):
-            return {str(k): conv(x, depth + 1, tree) for k, x in leaf.items() if isinstance(k, (str, int))}
+            maybe = getattr(leaf, "maybe", {})
+            return {str(k): conv(x, depth + 1, tree) for k, x in leaf.items() if isinstance(k, (str, int))
+                    and (k not in maybe or z3.is_true(m.eval(maybe[k], model_completion=True)))}
         if isinstance(leaf, (int, str, bool, float)) or leaf is None:
             return leaf
         from fractions import Fraction
